@@ -1,6 +1,8 @@
 package props
 
 import (
+	"fmt"
+	"strings"
 	"sync"
 
 	"github.com/rqlite/rqlite/v10/verifx"
@@ -36,4 +38,10 @@ func takeFatals() []string {
 	f := fatalLog
 	fatalLog = nil
 	return f
+}
+
+// violate records a violation; scratch paths (which differ between processes)
+// are masked so that replays produce identical event logs.
+func violate(c *core.Ctx, class, format string, a ...any) {
+	c.Violate(class, "%s", strings.ReplaceAll(fmt.Sprintf(format, a...), c.Dir, "$DIR"))
 }
